@@ -11,6 +11,7 @@ import (
 )
 
 type Clause struct {
+	Raw   func(phis []Value, operand func(interface{}) string) string // engine-generated clause (auto invariants)
 	Label string
 	Props []string
 	E     Expr
@@ -379,6 +380,9 @@ func parseModifies(rest string) ([]ModItem, error) {
 					continue
 				case "cell":
 					items = append(items, ModItem{Kind: "cell", E: x.Args[0]})
+					continue
+				case "fields":
+					items = append(items, ModItem{Kind: "fields", E: x.Args[0]})
 					continue
 				case "mapof":
 					items = append(items, ModItem{Kind: "map", E: x.Args[0]})
